@@ -1,14 +1,28 @@
 SPEC = {
     "id": "C04",
     "level": "exploration",
-    "level_text": "placeholder",
-    "level_note": "placeholder",
-    "technique": "runtime monitoring: transmitter-side oracle",
-    "rule": "placeholder",
-    "assumptions": [],
+    "level_text": "Random payloads of every supported service are rendered as nominal waveforms by the library's own generator (_vbi_raw_vbi_image / _vbi_raw_video_image) for sampled configurations - one Teletext system plus any other services of the video standard, sampling rate 13.5-40 MHz (Teletext) or 2x clock-40 MHz (others) incl. the rates where the slicer's integer step changes value, any window that keeps all requested signals inside the line (down to zero margin), all 23 pixel formats, sequential/interlaced, synchronous or not, exactly/generously covering line ranges, strict -1..2, three frames with a remove/re-add history - and decoded by vbi3_raw_decoder_*, vbi_raw_decoder_*/vbi_raw_decode and both single-line bit slicers under ASan+UBSan. The decoded array must equal the transmitted lines exactly (count, ascending ITU-R line numbers or 0, id within the requested set and of the transmitted service, exactly the payload bits, nothing for blank lines, nothing written beyond the count). Held on the configurations produced, not a proof; the configuration space is continuous.",
+    "level_note": "Trusted: the library's waveform generator as transmitter (its signal positions are cross-checked against the oracle's span table in the self-test), the service table in harness/c04_common.h (written from the standards), gcc ASan/UBSan. A line failure that disappears exactly under one named condition (0.6 us more line after the signal, 12 % higher sampling rate when within 6 % of the statement's rate floor, caption service not requested on the shared line) is reported under that quirk's own key, never silently tolerated.",
+    "technique": "runtime monitoring: transmitter-side round-trip oracle over generated configurations and payloads, four receiver interfaces, ASan/UBSan; named-quirk re-transmission to classify failures",
+    "rule": "one case = one configuration (service set, rate, window, pixel format, field layout, line ranges, strictness) x 3 frames with random line subsets and payload classes (random, zeros, ones, alternating, long runs) x 2 raw decoder interfaces + up to 4 single-line slicer calls per frame; signature = (service, slicer function {Y8,YUYV,RGB24,RGBA24,RGB16_LE,RGB16_BE,lowpass}, floor(rate/1 MHz), interlaced, synchronous); trivial = no service line transmitted in any frame",
+    "assumptions": [
+        "service sets contain at most one Teletext system per video standard (the repository's own test documents that they cannot be told apart); mixed sets, field-dependent services without field order are run for memory safety only (counter configs_unjudged)",
+        "strict > 0 is taken to include the 1 us line headroom the library documents; Teletext B is requested as VBI_SLICED_TELETEXT_B, not as its Level 1.0/2.5 subsets",
+        "the transmitter (src/io-sim.c) is the reference for where a nominal signal lies; noisy or attenuated signals are outside the statement",
+    ],
     "jobs": [
         {"name": "asan", "harness": "c04_raw_roundtrip", "srcs": ["harness/c04_raw_roundtrip.c"], "flavour": "asan",
-         "cases": {"quick": 9600, "thorough": 960000}, "budget": 20},
+         "cases": {"quick": 48000, "thorough": 3200000}, "budget": 20},
     ],
-    "min_distinct": 50,
+    "min_distinct": 400,
+    "min_counters": {
+        "configs_judged": 1000, "lines_transmitted": 100000, "records_vbi3": 50000, "records_old": 50000,
+        "bitslice_new_ok": 10000, "bitslice_old_ok": 10000, "bitslice_points_ok": 500, "bitslice_blank_lines": 1000,
+        "func_Y8": 100, "func_YUYV": 100, "func_RGB24": 100, "func_RGBA24": 100, "func_RGB16_LE": 100, "func_RGB16_BE": 100, "func_lowpass": 100,
+        "configs_step_boundary_rate": 1000, "configs_signal_ends_at_window_end": 500, "configs_signal_starts_at_window_start": 500,
+        "histories_remove": 500, "histories_readd": 500,
+        "svc_ttx_a": 100, "svc_ttx_b_625": 100, "svc_ttx_c_625": 100, "svc_ttx_d_625": 100, "svc_vps": 100, "svc_wss_625": 100,
+        "svc_cc_625_f1": 100, "svc_cc_625_f2": 100, "svc_ttx_b_525": 100, "svc_ttx_c_525": 100, "svc_ttx_d_525": 100,
+        "svc_cc_525_f1": 100, "svc_cc_525_f2": 100,
+    },
 }
